@@ -7,6 +7,8 @@ import Splipy.Lemmas.C12Raise
 import Splipy.Lemmas.C12Direction
 import Splipy.Lemmas.C05RaisesTo
 import Splipy.Lemmas.C12Periodic
+import Splipy.Lemmas.C12All
+import Splipy.Lemmas.C12Core
 import Splipy.Lemmas.C12Examples
 import Mathlib.Data.Rat.Floor
 import Mathlib.Tactic.NormNum
@@ -190,13 +192,13 @@ that is actually made, each in the form `SameMapOn m i · ·` (same domain in di
   lifted to the tensor-product sum in `C12.lowerPeriodic_sameMapOn` and discharged in
   `C12_periodic_direction_partial` under the guard `n ≥ p + k`; false in the pinned code below it);
 * `H_raise₁/₂` — `raise_order(amount > 0)` keeps the evaluated map (property C05; proved in full
-  for clamped bases in ONE parametric direction and discharged for curves in `C12_open_curves`
+  for clamped bases in ONE parametric direction and discharged for curves in `C12_open_curves_partial`
   (`C12.raise_to_common`); open for periodic bases and for pardim 2–3, where `raise_order`
   re-interpolates all directions at once and C05 has no composition theorem);
 * `H_insert₁/₂` — `insert_knot(list)` keeps the evaluated map (property C04: `C04_object` proves it
   for every fibre of a non-periodic direction; the identification of the fibre splines with the
   tensor-product sum `C06.TP.eval` is `C12.toTP_eval_fibre`, so for a NON-periodic direction this
-  hypothesis is discharged for any pardim — `C12.insertKnots_sameMap`, used in `C12_open_curves` and
+  hypothesis is discharged for any pardim — `C12.insertKnots_sameMap`, used in `C12_open_curves_partial` and
   `C12_open_direction_partial` —; periodic insertion is `C04_periodic_partial`).
 So the theorem is complete exactly when periodicities and orders already agree and nothing has to be
 inserted, and otherwise partial to the extent C08 / C05 / C04 are.  The correspondence run decides
@@ -267,118 +269,111 @@ theorem C12_geometry_partial {m : ℕ} (tol : K) (c1 c2 : Bool) (s a b c r : Obj
     rw [this] at hr2
     exact raiseOrderDispatch_zero hr2
 
-/-- **Two open curves of the same order — the whole property, no hypothesis on the called methods.**
-`s` is the pair after `make_splines_compatible`, `a` the pair after the `reparam` stage, whose two
-(clamped, non-periodic) bases of order `p ≥ 2` are written over the common end knots `x0 < xl`
-(`= 0, 1`) and the common separated list `L` of interior entries (value, multiplicity in curve 1,
-multiplicity in curve 2; `0` = absent).  Then `make_splines_identical` (direction 0) succeeds; both
-curves end with the SAME basis — order `p`, non-periodic, knot vector the union with multiplicities
-`max(m₁,m₂)` —; and each curve evaluates, at `(u - start)/(end - start)`, to exactly the map it
-represented before (every homogeneous component, every side).
-Here `lower_periodic` and `raise_order` have nothing to do (`raise_order(0)` returns the receiver), the
-`reparam` step is property C06 and the insertion step property C04 (`C04.insertKnots_fibres`) lifted
-to the defining sum of a curve (`C12.toTP_eval_curve`).
+/-! ## Non-periodic (clamped) directions
 
-`_partial`: the sub-family "curves, both non-periodic, equal orders, knots pairwise equal or more
-than `tol` apart"; differing orders / periodicities and surfaces / volumes are `C12_geometry_partial`. -/
-theorem C12_open_curves_partial (tol : K) (htol : 0 < tol) (c1 c2 : Bool) (p : ℕ) (hp : 2 ≤ p) (x0 xl : K)
-    (L : List (K × ℕ × ℕ)) (hsep : Separated tol (clampedU x0 xl (L.map (·.1))))
-    (s a : Obj K × Obj K) (hw1 : C06.WF s.1 1) (hw2 : C06.WF s.2 1) (ha : stageReparam s 0 = .ok a)
-    (hb1 : a.1.basis 0 = openBasis p (clampedU x0 xl (L.map (·.1))) (clampedM p (L.map (·.2.1))))
-    (hb2 : a.2.basis 0 = openBasis p (clampedU x0 xl (L.map (·.1))) (clampedM p (L.map (·.2.2)))) :
+Conventions for the theorems of this section.  `s` is the pair the per-direction body of
+`make_splines_identical` starts from (the pair after `make_splines_compatible`); both objects are
+well formed (`C06.WF`).  The `reparam` stage is NOT a hypothesis: it succeeds for well-formed objects
+(`C12.stageReparam_succeeds`, property C06) and its result in direction `i` is the normalised basis
+`C06.reparamOk (s.j.basis i) 0 1` (knots `(τ - start)/(end - start)`).  The knot hypotheses are put on
+these normalised bases: both are clamped, of orders `p₁, p₂`, written over the common end knots
+`x0 < xl` (`= 0, 1`) and ONE common list `L` of interior entries (value, multiplicity in object 1,
+multiplicity in object 2; `0` = absent from that object) — "knots pairwise equal or separated".
+
+GUARDS that go beyond the property's quantifier (hence `_partial`): orders `≥ 2`; direction `i`
+non-periodic and clamped; the two normalised knot vectors must be presented in the common-entry form
+(that every pair with a separated union can be so written is not proved); distinct values more than
+`tol` — for the theorems that elevate the order `2·(max p₁ p₂ - 1)·tol`, the Schoenberg–Whitney spacing
+of property C05 — apart; continuity `m_j ≤ p_j - 1` where the order is elevated; for surfaces and
+volumes the two no-exception side conditions of a multi-directional `raise_order` (`GrevilleOK` of the
+untouched directions, `raiseGuard`). -/
+
+/-- **Two open curves of the same order** (weakest separation: distinct values more than `tol` apart).
+`make_splines_identical` (direction 0) succeeds; both curves end with the SAME basis (order `p`,
+non-periodic, the union knot vector with multiplicities `max(m₁,m₂)`); each curve evaluates at
+`(u - start)/(end - start)` to exactly its old map (every homogeneous component, every side, every
+parameter); both results are well formed.  No hypothesis on the called methods: `lower_periodic` and
+`raise_order(0)` do nothing, `reparam` is C06, the insertions are C04 lifted by `C12.toTP_eval_curve`. -/
+theorem C12_open_curves_same_order_partial (tol : K) (htol : 0 < tol) (c1 c2 : Bool) (p : ℕ) (hp : 2 ≤ p)
+    (x0 xl : K) (L : List (K × ℕ × ℕ)) (hsep : Separated tol (clampedU x0 xl (L.map (·.1))))
+    (s : Obj K × Obj K) (hw1 : C06.WF s.1 1) (hw2 : C06.WF s.2 1)
+    (hb1 : C06.reparamOk (s.1.basis 0) 0 1
+      = openBasis p (clampedU x0 xl (L.map (·.1))) (clampedM p (L.map (·.2.1))))
+    (hb2 : C06.reparamOk (s.2.basis 0) 0 1
+      = openBasis p (clampedU x0 xl (L.map (·.1))) (clampedM p (L.map (·.2.2)))) :
     ∃ r, identicalDir tol c1 c2 s 0 = .ok r
       ∧ r.1.basis 0 = openBasis p (clampedU x0 xl (L.map (·.1))) (clampedM p (L.map (fun e => max e.2.1 e.2.2)))
       ∧ r.2.basis 0 = r.1.basis 0
       ∧ Rescaled 1 0 (s.1.basis 0).start (s.1.basis 0).stop s.1 r.1
-      ∧ Rescaled 1 0 (s.2.basis 0).start (s.2.basis 0).stop s.2 r.2 := by
-  obtain ⟨_, _, ha1, ha2⟩ := stageReparam_ok ha
-  have hre1 := reparam_rescaled hw1 0 ha1
-  have hre2 := reparam_rescaled hw2 0 ha2
-  obtain ⟨r, hSP, hSO, hSM, hr1, hr2, hs1, hs2⟩ :=
-    open_curves_same_order tol htol c1 c2 p hp x0 xl L hsep a hre1.2.1 hre2.2.1 hb1 hb2
-  exact ⟨r, identicalDir_of_stages ha hSP hSO hSM, hr1, hr2.trans hr1.symm,
-    hre1.1.trans_same hs1, hre2.1.trans_same hs2⟩
+      ∧ Rescaled 1 0 (s.2.basis 0).start (s.2.basis 0).stop s.2 r.2 :=
+  core_open_curves_same tol htol c1 c2 p hp x0 xl L hsep s _ hw1 hw2
+    (stageReparam_succeeds hw1 hw2 (0 : Fin 1) (by decide))
+    ((reparamObj_basis hw1 (0 : Fin 1)).trans hb1) ((reparamObj_basis hw2 (0 : Fin 1)).trans hb2)
 
-/-- **Two clamped curves of DIFFERENT orders — the whole property, no hypothesis on the called
-methods.**  `s` is the pair after `make_splines_compatible` (any two well-formed curves, rational or
-not), `a` the pair after the `reparam` stage.  The two bases of `a` are clamped, of orders
-`p₁, p₂ ≥ 2`, written over the common end knots `x0 < xl` (`= 0, 1`) and the common list `L` of interior
-entries (value, multiplicity in curve 1, multiplicity in curve 2; `0` = the value is absent from that
-curve); the curves are continuous (`m_j ≤ p_j - 1`) and the distinct values are more than
-`2·(p-1)·tol` apart, `p = max p₁ p₂` (knots pairwise equal or well separated; with the default
-`tol = 1e-10` that is `< 1e-9` for `p ≤ 5`).  Then, whatever the classes of the two objects
-(`Curve.raise_order` override or the base-class method):
+/-- **Two clamped curves of DIFFERENT orders — no hypothesis on the called methods.**  Orders
+`p₁, p₂ ≥ 2`, continuity `m_j ≤ p_j - 1`, distinct values more than `2·(p-1)·tol` apart, `p = max p₁ p₂`
+(with the default `tol = 1e-10` that is `< 1e-9` for `p ≤ 5`).  Whatever the classes of the two
+objects (`Curve.raise_order` override or the base-class method):
 * `make_splines_identical` (direction 0) SUCCEEDS;
-* both curves end with the SAME basis: order `p`, non-periodic, on `[x0, xl]`, knot vector = the
-  union in which a knot present in curve `j` counts `m_j + (p - p_j)` times (`raise_order` keeps the
-  continuity `p_j - 1 - m_j`) and the larger of the two counts is taken — identical order,
-  periodicity and knot vector;
-* each curve evaluates at `(u - start)/(end - start)` to exactly the map it represented before:
-  every homogeneous component, every side (hence also the projected rational curve).
-Ingredients: `reparam` = property C06; `raise_order` = property C05 in full
-(`C05_geometry_partial` + degree-elevation inclusion + Schoenberg–Whitney, read at the Cox–de Boor
-level through `C12.elevation_both`); insertion = property C04 (`C04.insertKnots_fibres`); the
-insertion counts and the union knot vector = `C12_knot_merge_partial`.
-Not covered by this theorem (see `C12_geometry_partial`): periodic directions (`lower_periodic`,
-periodic insertion), parametric dimension 2–3 — there `raise_order` re-interpolates ALL directions at
-once and the per-direction composition is not proved in C05, and the identification of the fibre
-splines with `C06.TP.eval` is only done for curves —, order-1 directions, knots closer than
-`2·(p-1)·tol` that are not equal. -/
-theorem C12_open_curves (tol : K) (htol : 0 < tol) (c1 c2 : Bool) (p1 p2 : ℕ) (hp1 : 2 ≤ p1) (hp2 : 2 ≤ p2)
-    (x0 xl : K) (L : List (K × ℕ × ℕ)) (hm : ∀ e ∈ L, e.2.1 ≤ p1 - 1 ∧ e.2.2 ≤ p2 - 1)
+* both curves end with the SAME basis: order `p`, non-periodic, on `[x0, xl]`, knot vector = the union
+  in which a knot present in curve `j` counts `m_j + (p - p_j)` times (`raise_order` keeps the
+  continuity `p_j - 1 - m_j`) and the larger of the two counts is taken;
+* each curve evaluates at `(u - start)/(end - start)` to exactly the map it represented before: every
+  homogeneous component, every side, every parameter (hence also the projected rational curve).
+Ingredients: `reparam` = C06; `raise_order` = C05 in full (`C05_geometry_partial` + degree-elevation
+inclusion + Schoenberg–Whitney, read at the Cox–de Boor level through `C12.elevation_both`); insertion
+= C04 (`C04.insertKnots_fibres`); counts and union knot vector = `C12_knot_merge_partial`.
+`_partial`: the guards listed at the head of this section. -/
+theorem C12_open_curves_partial (tol : K) (htol : 0 < tol) (c1 c2 : Bool) (p1 p2 : ℕ) (hp1 : 2 ≤ p1)
+    (hp2 : 2 ≤ p2) (x0 xl : K) (L : List (K × ℕ × ℕ)) (hm : ∀ e ∈ L, e.2.1 ≤ p1 - 1 ∧ e.2.2 ≤ p2 - 1)
     (hgap : Separated (2 * ((max p1 p2 - 1 : ℕ) : K) * tol) (clampedU x0 xl (L.map (·.1))))
-    (s a : Obj K × Obj K) (hw1 : C06.WF s.1 1) (hw2 : C06.WF s.2 1) (ha : stageReparam s 0 = .ok a)
-    (hb1 : a.1.basis 0 = openBasis p1 (clampedU x0 xl (L.map (·.1))) (clampedM p1 (L.map (·.2.1))))
-    (hb2 : a.2.basis 0 = openBasis p2 (clampedU x0 xl (L.map (·.1))) (clampedM p2 (L.map (·.2.2)))) :
+    (s : Obj K × Obj K) (hw1 : C06.WF s.1 1) (hw2 : C06.WF s.2 1)
+    (hb1 : C06.reparamOk (s.1.basis 0) 0 1
+      = openBasis p1 (clampedU x0 xl (L.map (·.1))) (clampedM p1 (L.map (·.2.1))))
+    (hb2 : C06.reparamOk (s.2.basis 0) 0 1
+      = openBasis p2 (clampedU x0 xl (L.map (·.1))) (clampedM p2 (L.map (·.2.2)))) :
     ∃ r, identicalDir tol c1 c2 s 0 = .ok r
       ∧ r.1.basis 0 = openBasis (max p1 p2) (clampedU x0 xl (L.map (·.1)))
           (clampedM (max p1 p2) (L.map (fun e =>
             max (raisedMult (max p1 p2 - p1) e.2.1) (raisedMult (max p1 p2 - p2) e.2.2))))
       ∧ r.2.basis 0 = r.1.basis 0
       ∧ Rescaled 1 0 (s.1.basis 0).start (s.1.basis 0).stop s.1 r.1
-      ∧ Rescaled 1 0 (s.2.basis 0).start (s.2.basis 0).stop s.2 r.2 := by
-  obtain ⟨_, _, ha1, ha2⟩ := stageReparam_ok ha
-  have hre1 := reparam_rescaled hw1 0 ha1
-  have hre2 := reparam_rescaled hw2 0 ha2
-  obtain ⟨c, r, hSP, hSO, hSM, hr1, hr2, hs1, hs2⟩ :=
-    open_curves_any_order tol htol c1 c2 p1 p2 hp1 hp2 x0 xl L hm hgap a hre1.2.1 hre2.2.1 hb1 hb2
-  exact ⟨r, identicalDir_of_stages ha hSP hSO hSM, hr1, hr2,
-    hre1.1.trans_same hs1, hre2.1.trans_same hs2⟩
+      ∧ Rescaled 1 0 (s.2.basis 0).start (s.2.basis 0).stop s.2 r.2 :=
+  core_open_curves tol htol c1 c2 p1 p2 hp1 hp2 x0 xl L hm hgap s _ hw1 hw2
+    (stageReparam_succeeds hw1 hw2 (0 : Fin 1) (by decide))
+    ((reparamObj_basis hw1 (0 : Fin 1)).trans hb1) ((reparamObj_basis hw2 (0 : Fin 1)).trans hb2)
 
 /-- **One non-periodic direction of a curve, surface or volume** (`m` = parametric dimension,
-direction `i`; the OTHER directions are arbitrary — other orders, knots, periodic or not).  `s` is the
-pair after `make_splines_compatible`, `a` the pair after the `reparam` stage of direction `i`, whose
-bases of direction `i` are clamped, of orders `p₁, p₂ ≥ 2`, in common-entry form (`L`: value,
-multiplicity in object 1, in object 2; `0` = absent), distinct values more than `tol` apart.
-Conclusion: `make_splines_identical(direction=i)` succeeds; in direction `i` both objects end with the
-same basis (order `max p₁ p₂`, the union knot vector with multiplicities
+direction `i`; the OTHER directions are arbitrary — other orders, knots, periodic or not).  Distinct
+values more than `tol` apart.  Conclusion: `make_splines_identical(direction=i)` succeeds; in direction
+`i` both objects end with the same basis (order `max p₁ p₂`, the union knot vector with multiplicities
 `max (m₁ + (p-p₁)) (m₂ + (p-p₂))` over the present knots); the bases of all other directions are
-unchanged; and each object evaluates, at `u_i ↦ (u_i - start_i)/(end_i - start_i)`, to exactly its
-old map (every homogeneous component, every side).
+unchanged; each object evaluates, at `u_i ↦ (u_i - start_i)/(end_i - start_i)`, to exactly its old map
+(every homogeneous component, every side, every parameter); both results are well formed (so the
+next direction can be processed).
 Proved without hypotheses: `reparam` (C06), the insertion passes and their geometry for ANY pardim
 (`C12.insertKnots_sameMap`: C04's fibre statement lifted to the tensor-product sum through
 `C12.toTP_eval_fibre`), and the whole statement when the two orders are equal.
 
-`_partial`: when the orders differ, the one remaining ingredient is `RaisesTo` for the object of lower
-order (`H_raise₁/₂`, needed only then; discharged for curves in `C12_open_curves` and, by
-`Lemmas/C05RaisesTo.lean`, for surfaces and volumes in `C12_open_surfaces` / `C12_open_volumes`): `raise_order(p - p_j, direction=i)` succeeds, gives the clamped
-basis of order `p` with the present multiplicities raised by `p - p_j`, leaves the other bases alone and
-keeps the evaluated map.  For curves this is a theorem (`C12.raisesTo_curve` ⇒ `C12_open_curves`).
-For `m ≥ 2` it is what property C05 does not yet provide: `raise_order_implicit` re-interpolates ALL
-directions at once (Greville collocation in every direction), so one needs (i) the index algebra of
-the chained `np.tensordot`s (`Tensor.tensordotFront`) for 2 and 3 axes, (ii) cancellation
-`inv(N_k)·N_k = 1` in the untouched directions — which requires their collocation matrices to be
-invertible as well (Schoenberg–Whitney there; open for periodic directions) —, after which each fibre
-along `i` is the 1-D problem solved in C05.  Periodic directions `i` (`lower_periodic`, periodic
-insertion) stay in `C12_geometry_partial`. -/
+`_partial`: the guards of this section, and, when the orders differ, `RaisesTo` for the object of lower
+order (`H_raise₁/₂`, needed only then): `raise_order(p - p_j, direction=i)` on the re-parametrised object
+succeeds, gives the clamped basis of order `p` with the present multiplicities raised by `p - p_j`,
+leaves the other bases alone and keeps the evaluated map.  This is a theorem for curves
+(`C12.raisesTo_curve` ⇒ `C12_open_curves_partial`) and, under the side conditions `GrevilleOK` /
+`raiseGuard`, for surfaces and volumes (`Lemmas/C05RaisesTo.lean` ⇒ `C12_open_surfaces_partial`,
+`C12_open_volumes_partial`). -/
 theorem C12_open_direction_partial {m : ℕ} (tol : K) (htol : 0 < tol) (c1 c2 : Bool) (p1 p2 : ℕ)
     (hp1 : 2 ≤ p1) (hp2 : 2 ≤ p2) (x0 xl : K) (L : List (K × ℕ × ℕ))
     (hsep : Separated tol (clampedU x0 xl (L.map (·.1)))) (i : Fin m) (hi : (i : ℕ) ≤ 2)
-    (s a : Obj K × Obj K) (hw1 : C06.WF s.1 m) (hw2 : C06.WF s.2 m) (ha : stageReparam s i = .ok a)
-    (hb1 : a.1.basis i = openBasis p1 (clampedU x0 xl (L.map (·.1))) (clampedM p1 (L.map (·.2.1))))
-    (hb2 : a.2.basis i = openBasis p2 (clampedU x0 xl (L.map (·.1))) (clampedM p2 (L.map (·.2.2))))
-    (H_raise₁ : p1 < max p1 p2 → RaisesTo tol c1 m i p1 (max p1 p2) x0 xl L (·.1) (·.2.1) a.1)
-    (H_raise₂ : p2 < max p1 p2 → RaisesTo tol c2 m i p2 (max p1 p2) x0 xl L (·.1) (·.2.2) a.2) :
+    (s : Obj K × Obj K) (hw1 : C06.WF s.1 m) (hw2 : C06.WF s.2 m)
+    (hb1 : C06.reparamOk (s.1.basis i) 0 1
+      = openBasis p1 (clampedU x0 xl (L.map (·.1))) (clampedM p1 (L.map (·.2.1))))
+    (hb2 : C06.reparamOk (s.2.basis i) 0 1
+      = openBasis p2 (clampedU x0 xl (L.map (·.1))) (clampedM p2 (L.map (·.2.2))))
+    (H_raise₁ : p1 < max p1 p2 →
+      RaisesTo tol c1 m i p1 (max p1 p2) x0 xl L (·.1) (·.2.1) (C06.reparamObj s.1 i 0 1))
+    (H_raise₂ : p2 < max p1 p2 →
+      RaisesTo tol c2 m i p2 (max p1 p2) x0 xl L (·.1) (·.2.2) (C06.reparamObj s.2 i 0 1)) :
     ∃ r, identicalDir tol c1 c2 s i = .ok r
       ∧ r.1.basis i = openBasis (max p1 p2) (clampedU x0 xl (L.map (·.1)))
           (clampedM (max p1 p2) (L.map (fun e =>
@@ -386,46 +381,39 @@ theorem C12_open_direction_partial {m : ℕ} (tol : K) (htol : 0 < tol) (c1 c2 :
       ∧ r.2.basis i = r.1.basis i
       ∧ (∀ k : Fin m, k ≠ i → r.1.basis k = s.1.basis k ∧ r.2.basis k = s.2.basis k)
       ∧ Rescaled m i (s.1.basis i).start (s.1.basis i).stop s.1 r.1
-      ∧ Rescaled m i (s.2.basis i).start (s.2.basis i).stop s.2 r.2 := by
-  obtain ⟨_, _, ha1, ha2⟩ := stageReparam_ok ha
-  have hre1 := reparam_rescaled hw1 i ha1
-  have hre2 := reparam_rescaled hw2 i ha2
-  obtain ⟨c, r, hSP, hSO, hSM, hr1, hr2, hs1, hs2, hk⟩ :=
-    open_direction_any_order tol htol c1 c2 p1 p2 hp1 hp2 x0 xl L hsep i hi a hre1.2.1 hre2.2.1 hb1 hb2
-      H_raise₁ H_raise₂
-  have hod1 := reparamDir_onlyDir ha1
-  have hod2 := reparamDir_onlyDir ha2
-  refine ⟨r, identicalDir_of_stages ha hSP hSO hSM, hr1, hr2, fun k hk' => ?_,
-    hre1.1.trans_same hs1, hre2.1.trans_same hs2⟩
-  have hne : (k : ℕ) ≠ (i : ℕ) := fun e => hk' (Fin.ext e)
-  exact ⟨((hk k hk').1).trans (hod1.basis_ne k hne), ((hk k hk').2).trans (hod2.basis_ne k hne)⟩
+      ∧ Rescaled m i (s.2.basis i).start (s.2.basis i).stop s.2 r.2
+      ∧ C06.WF r.1 m ∧ C06.WF r.2 m :=
+  core_open_direction tol htol c1 c2 p1 p2 hp1 hp2 x0 xl L hsep i hi s _ hw1 hw2
+    (stageReparam_succeeds hw1 hw2 i hi)
+    ((reparamObj_basis hw1 i).trans hb1) ((reparamObj_basis hw2 i).trans hb2) H_raise₁ H_raise₂
 
 /-- **One clamped direction `i` of two SURFACES of DIFFERENT orders — no hypothesis on the geometry of
-the called methods.**  As `C12_open_direction_partial` with `m = 2` and both objects not `Curve`s, the
-`RaisesTo` hypotheses discharged by property C05 (`C12.raisesTo_surface`, `Lemmas/C05RaisesTo.lean`):
-direction `i` continuous (`m_j ≤ p_j - 1`) with distinct values more than `2·(max p₁ p₂ - 1)·tol` apart.
-Because `raise_order` re-interpolates EVERY direction (also the untouched ones), two side conditions
-on the pair `a` after `reparam` remain, needed only for an object whose order is actually raised and
-both about the model not raising an exception rather than about geometry:
-* `GrevilleOK tol (a.j.basis k)` for the other directions `k ≠ i` — the Greville collocation matrix
+the called methods.**  `C12_open_direction_partial` with `m = 2`, both objects not `Curve`s, and
+`RaisesTo` discharged by property C05 (`Lemmas/C05RaisesTo.lean`): direction `i` continuous
+(`m_j ≤ p_j - 1`), distinct values more than `2·(max p₁ p₂ - 1)·tol` apart.  Because `raise_order`
+re-interpolates EVERY direction (also the untouched ones), two side conditions remain, needed only for
+an object whose order is actually raised, both about the model (like the code) not raising an
+exception rather than about geometry:
+* `GrevilleOK tol (s.j.basis k)` for the other directions `k ≠ i` — the Greville collocation matrix
   there is invertible (`np.linalg.inv` does not raise `LinAlgError`); proved for clamped continuous
-  bases by `C12.grevilleOK_clamped`, any valid basis is accepted, periodic ones included;
-* `raiseGuard tol a.j.bases = ok true` — the guard of `raise_order` does not raise; automatic when
-  direction 0 is clamped (`raiseGuard_clamped`) or periodic (`C12.raiseGuard_periodic`).
-Conclusion: `make_splines_identical(direction=i)` succeeds, both objects get the same basis in
-direction `i` (order `max p₁ p₂`, union knot vector), all other bases are unchanged and both objects are
-exact rescalings `u_i ↦ (u_i - start_i)/(end_i - start_i)` of their inputs. -/
-theorem C12_open_surfaces (tol : K) (htol : 0 < tol) (p1 p2 : ℕ) (hp1 : 2 ≤ p1) (hp2 : 2 ≤ p2) (x0 xl : K)
+  bases (`grevilleOK_clamped`, `C12.grevilleOK_common`), any valid basis is accepted, periodic included;
+* `raiseGuard` of the re-parametrised object is `ok true` — the guard of `raise_order` does not raise;
+  automatic when direction 0 is clamped (`raiseGuard_clamped`, `C12.raiseGuard_common`) or periodic
+  (`raiseGuard_periodic`).
+Conclusion as in `C12_open_direction_partial`, including well-formedness of both results.
+`_partial`: the guards of this section and the two side conditions. -/
+theorem C12_open_surfaces_partial (tol : K) (htol : 0 < tol) (p1 p2 : ℕ) (hp1 : 2 ≤ p1) (hp2 : 2 ≤ p2) (x0 xl : K)
     (L : List (K × ℕ × ℕ)) (hm : ∀ e ∈ L, e.2.1 ≤ p1 - 1 ∧ e.2.2 ≤ p2 - 1)
     (hgap : Separated (2 * ((max p1 p2 - 1 : ℕ) : K) * tol) (clampedU x0 xl (L.map (·.1))))
-    (i : Fin 2) (s a : Obj K × Obj K) (hw1 : C06.WF s.1 2) (hw2 : C06.WF s.2 2)
-    (ha : stageReparam s i = .ok a)
-    (hb1 : a.1.basis i = openBasis p1 (clampedU x0 xl (L.map (·.1))) (clampedM p1 (L.map (·.2.1))))
-    (hb2 : a.2.basis i = openBasis p2 (clampedU x0 xl (L.map (·.1))) (clampedM p2 (L.map (·.2.2))))
-    (hother₁ : p1 < max p1 p2 → ∀ k : Fin 2, k ≠ i → GrevilleOK tol (a.1.basis k))
-    (hother₂ : p2 < max p1 p2 → ∀ k : Fin 2, k ≠ i → GrevilleOK tol (a.2.basis k))
-    (hguard₁ : p1 < max p1 p2 → Obj.raiseGuard tol a.1.bases.toList = .ok true)
-    (hguard₂ : p2 < max p1 p2 → Obj.raiseGuard tol a.2.bases.toList = .ok true) :
+    (i : Fin 2) (s : Obj K × Obj K) (hw1 : C06.WF s.1 2) (hw2 : C06.WF s.2 2)
+    (hb1 : C06.reparamOk (s.1.basis i) 0 1
+      = openBasis p1 (clampedU x0 xl (L.map (·.1))) (clampedM p1 (L.map (·.2.1))))
+    (hb2 : C06.reparamOk (s.2.basis i) 0 1
+      = openBasis p2 (clampedU x0 xl (L.map (·.1))) (clampedM p2 (L.map (·.2.2))))
+    (hother₁ : p1 < max p1 p2 → ∀ k : Fin 2, k ≠ i → GrevilleOK tol (s.1.basis k))
+    (hother₂ : p2 < max p1 p2 → ∀ k : Fin 2, k ≠ i → GrevilleOK tol (s.2.basis k))
+    (hguard₁ : p1 < max p1 p2 → Obj.raiseGuard tol (C06.reparamObj s.1 i 0 1).bases.toList = .ok true)
+    (hguard₂ : p2 < max p1 p2 → Obj.raiseGuard tol (C06.reparamObj s.2 i 0 1).bases.toList = .ok true) :
     ∃ r, identicalDir tol false false s i = .ok r
       ∧ r.1.basis i = openBasis (max p1 p2) (clampedU x0 xl (L.map (·.1)))
           (clampedM (max p1 p2) (L.map (fun e =>
@@ -433,48 +421,46 @@ theorem C12_open_surfaces (tol : K) (htol : 0 < tol) (p1 p2 : ℕ) (hp1 : 2 ≤ 
       ∧ r.2.basis i = r.1.basis i
       ∧ (∀ k : Fin 2, k ≠ i → r.1.basis k = s.1.basis k ∧ r.2.basis k = s.2.basis k)
       ∧ Rescaled 2 i (s.1.basis i).start (s.1.basis i).stop s.1 r.1
-      ∧ Rescaled 2 i (s.2.basis i).start (s.2.basis i).stop s.2 r.2 := by
-  obtain ⟨_, _, ha1, ha2⟩ := stageReparam_ok ha
-  have hwa1 := (reparam_rescaled hw1 i ha1).2.1
-  have hwa2 := (reparam_rescaled hw2 i ha2).2.1
-  have hfac : tol ≤ 2 * ((max p1 p2 - 1 : ℕ) : K) * tol := by
-    have h1 : (1 : K) ≤ ((max p1 p2 - 1 : ℕ) : K) := by
-      have : 1 ≤ max p1 p2 - 1 := by have := le_max_left p1 p2; omega
-      exact_mod_cast this
-    nlinarith
-  exact C12_open_direction_partial tol htol false false p1 p2 hp1 hp2 x0 xl L (separated_mono hfac hgap) i
-    (by have := i.isLt; omega) s a hw1 hw2 ha hb1 hb2
-    (fun h => raisesTo_surface tol htol i p1 (max p1 p2) hp1 (le_max_left _ _) x0 xl L (·.1) (·.2.1)
-      (fun e he => (hm e he).1) hgap a.1 hwa1 hb1 (hother₁ h) (hguard₁ h))
-    (fun h => raisesTo_surface tol htol i p2 (max p1 p2) hp2 (le_max_right _ _) x0 xl L (·.1) (·.2.2)
-      (fun e he => (hm e he).2) hgap a.2 hwa2 hb2 (hother₂ h) (hguard₂ h))
+      ∧ Rescaled 2 i (s.2.basis i).start (s.2.basis i).stop s.2 r.2
+      ∧ C06.WF r.1 2 ∧ C06.WF r.2 2 :=
+  core_open_surfaces tol htol p1 p2 hp1 hp2 x0 xl L hm hgap i s _ hw1 hw2
+    (stageReparam_succeeds hw1 hw2 i (by have := i.isLt; omega))
+    ((reparamObj_basis hw1 i).trans hb1) ((reparamObj_basis hw2 i).trans hb2)
+    (fun h k hk => by
+      show GrevilleOK tol ((C06.reparamObj s.1 i 0 1).basis k)
+      rw [reparamObj_basis_ne s.1 i k (fun e => hk (Fin.ext e))]; exact hother₁ h k hk)
+    (fun h k hk => by
+      show GrevilleOK tol ((C06.reparamObj s.2 i 0 1).basis k)
+      rw [reparamObj_basis_ne s.2 i k (fun e => hk (Fin.ext e))]; exact hother₂ h k hk)
+    hguard₁ hguard₂
 
 /-- **One clamped direction `i` of two VOLUMES of DIFFERENT orders — no hypothesis on the geometry of
-the called methods.**  As `C12_open_direction_partial` with `m = 3` and both objects not `Curve`s, the
-`RaisesTo` hypotheses discharged by property C05 (`C12.raisesTo_volume`, `Lemmas/C05RaisesTo.lean`):
-direction `i` continuous (`m_j ≤ p_j - 1`) with distinct values more than `2·(max p₁ p₂ - 1)·tol` apart.
-Because `raise_order` re-interpolates EVERY direction (also the untouched ones), two side conditions
-on the pair `a` after `reparam` remain, needed only for an object whose order is actually raised and
-both about the model not raising an exception rather than about geometry:
-* `GrevilleOK tol (a.j.basis k)` for the other directions `k ≠ i` — the Greville collocation matrix
+the called methods.**  `C12_open_direction_partial` with `m = 3`, both objects not `Curve`s, and
+`RaisesTo` discharged by property C05 (`Lemmas/C05RaisesTo.lean`): direction `i` continuous
+(`m_j ≤ p_j - 1`), distinct values more than `2·(max p₁ p₂ - 1)·tol` apart.  Because `raise_order`
+re-interpolates EVERY direction (also the untouched ones), two side conditions remain, needed only for
+an object whose order is actually raised, both about the model (like the code) not raising an
+exception rather than about geometry:
+* `GrevilleOK tol (s.j.basis k)` for the other directions `k ≠ i` — the Greville collocation matrix
   there is invertible (`np.linalg.inv` does not raise `LinAlgError`); proved for clamped continuous
-  bases by `C12.grevilleOK_clamped`, any valid basis is accepted, periodic ones included;
-* `raiseGuard tol a.j.bases = ok true` — the guard of `raise_order` does not raise; automatic when
-  direction 0 is clamped (`raiseGuard_clamped`) or periodic (`C12.raiseGuard_periodic`).
-Conclusion: `make_splines_identical(direction=i)` succeeds, both objects get the same basis in
-direction `i` (order `max p₁ p₂`, union knot vector), all other bases are unchanged and both objects are
-exact rescalings `u_i ↦ (u_i - start_i)/(end_i - start_i)` of their inputs. -/
-theorem C12_open_volumes (tol : K) (htol : 0 < tol) (p1 p2 : ℕ) (hp1 : 2 ≤ p1) (hp2 : 2 ≤ p2) (x0 xl : K)
+  bases (`grevilleOK_clamped`, `C12.grevilleOK_common`), any valid basis is accepted, periodic included;
+* `raiseGuard` of the re-parametrised object is `ok true` — the guard of `raise_order` does not raise;
+  automatic when direction 0 is clamped (`raiseGuard_clamped`, `C12.raiseGuard_common`) or periodic
+  (`raiseGuard_periodic`).
+Conclusion as in `C12_open_direction_partial`, including well-formedness of both results.
+`_partial`: the guards of this section and the two side conditions. -/
+theorem C12_open_volumes_partial (tol : K) (htol : 0 < tol) (p1 p2 : ℕ) (hp1 : 2 ≤ p1) (hp2 : 2 ≤ p2) (x0 xl : K)
     (L : List (K × ℕ × ℕ)) (hm : ∀ e ∈ L, e.2.1 ≤ p1 - 1 ∧ e.2.2 ≤ p2 - 1)
     (hgap : Separated (2 * ((max p1 p2 - 1 : ℕ) : K) * tol) (clampedU x0 xl (L.map (·.1))))
-    (i : Fin 3) (s a : Obj K × Obj K) (hw1 : C06.WF s.1 3) (hw2 : C06.WF s.2 3)
-    (ha : stageReparam s i = .ok a)
-    (hb1 : a.1.basis i = openBasis p1 (clampedU x0 xl (L.map (·.1))) (clampedM p1 (L.map (·.2.1))))
-    (hb2 : a.2.basis i = openBasis p2 (clampedU x0 xl (L.map (·.1))) (clampedM p2 (L.map (·.2.2))))
-    (hother₁ : p1 < max p1 p2 → ∀ k : Fin 3, k ≠ i → GrevilleOK tol (a.1.basis k))
-    (hother₂ : p2 < max p1 p2 → ∀ k : Fin 3, k ≠ i → GrevilleOK tol (a.2.basis k))
-    (hguard₁ : p1 < max p1 p2 → Obj.raiseGuard tol a.1.bases.toList = .ok true)
-    (hguard₂ : p2 < max p1 p2 → Obj.raiseGuard tol a.2.bases.toList = .ok true) :
+    (i : Fin 3) (s : Obj K × Obj K) (hw1 : C06.WF s.1 3) (hw2 : C06.WF s.2 3)
+    (hb1 : C06.reparamOk (s.1.basis i) 0 1
+      = openBasis p1 (clampedU x0 xl (L.map (·.1))) (clampedM p1 (L.map (·.2.1))))
+    (hb2 : C06.reparamOk (s.2.basis i) 0 1
+      = openBasis p2 (clampedU x0 xl (L.map (·.1))) (clampedM p2 (L.map (·.2.2))))
+    (hother₁ : p1 < max p1 p2 → ∀ k : Fin 3, k ≠ i → GrevilleOK tol (s.1.basis k))
+    (hother₂ : p2 < max p1 p2 → ∀ k : Fin 3, k ≠ i → GrevilleOK tol (s.2.basis k))
+    (hguard₁ : p1 < max p1 p2 → Obj.raiseGuard tol (C06.reparamObj s.1 i 0 1).bases.toList = .ok true)
+    (hguard₂ : p2 < max p1 p2 → Obj.raiseGuard tol (C06.reparamObj s.2 i 0 1).bases.toList = .ok true) :
     ∃ r, identicalDir tol false false s i = .ok r
       ∧ r.1.basis i = openBasis (max p1 p2) (clampedU x0 xl (L.map (·.1)))
           (clampedM (max p1 p2) (L.map (fun e =>
@@ -482,56 +468,229 @@ theorem C12_open_volumes (tol : K) (htol : 0 < tol) (p1 p2 : ℕ) (hp1 : 2 ≤ p
       ∧ r.2.basis i = r.1.basis i
       ∧ (∀ k : Fin 3, k ≠ i → r.1.basis k = s.1.basis k ∧ r.2.basis k = s.2.basis k)
       ∧ Rescaled 3 i (s.1.basis i).start (s.1.basis i).stop s.1 r.1
-      ∧ Rescaled 3 i (s.2.basis i).start (s.2.basis i).stop s.2 r.2 := by
-  obtain ⟨_, _, ha1, ha2⟩ := stageReparam_ok ha
-  have hwa1 := (reparam_rescaled hw1 i ha1).2.1
-  have hwa2 := (reparam_rescaled hw2 i ha2).2.1
-  have hfac : tol ≤ 2 * ((max p1 p2 - 1 : ℕ) : K) * tol := by
-    have h1 : (1 : K) ≤ ((max p1 p2 - 1 : ℕ) : K) := by
-      have : 1 ≤ max p1 p2 - 1 := by have := le_max_left p1 p2; omega
+      ∧ Rescaled 3 i (s.2.basis i).start (s.2.basis i).stop s.2 r.2
+      ∧ C06.WF r.1 3 ∧ C06.WF r.2 3 :=
+  core_open_volumes tol htol p1 p2 hp1 hp2 x0 xl L hm hgap i s _ hw1 hw2
+    (stageReparam_succeeds hw1 hw2 i (by have := i.isLt; omega))
+    ((reparamObj_basis hw1 i).trans hb1) ((reparamObj_basis hw2 i).trans hb2)
+    (fun h k hk => by
+      show GrevilleOK tol ((C06.reparamObj s.1 i 0 1).basis k)
+      rw [reparamObj_basis_ne s.1 i k (fun e => hk (Fin.ext e))]; exact hother₁ h k hk)
+    (fun h k hk => by
+      show GrevilleOK tol ((C06.reparamObj s.2 i 0 1).basis k)
+      rw [reparamObj_basis_ne s.2 i k (fun e => hk (Fin.ext e))]; exact hother₂ h k hk)
+    hguard₁ hguard₂
+
+/-- **`make_splines_identical(a, b)` with `direction=None` on two clamped SURFACES of different orders
+and knots in BOTH directions — the composed statement.**  `o1`, `o2` are well-formed surfaces (rational
+or not, any dimensions); for each direction `i`: orders `p₁ i, p₂ i ≥ 2`, the normalised bases in
+common-entry form over `L i`, continuity `m_j ≤ p_j - 1`, distinct values more than
+`2·(max (p₁ i) (p₂ i) - 1)·tol` apart.  Then the whole call — `make_splines_compatible`, then the loop over
+the directions 0 and 1, each of which repeats `make_splines_compatible` (the identity by then),
+`check_direction`, `reparam`, `lower_periodic` (nothing to do), `raise_order`, the two insertion passes —
+SUCCEEDS, and with `c = make_splines_compatible(o1, o2)` (see `C12_compatible` for that step):
+* both results are well formed, have the rationality and the number of components of `c.1`, `c.2`
+  (equal dimension and rationality);
+* in EVERY direction both have the same basis: order `max (p₁ i) (p₂ i)`, non-periodic, the union knot
+  vector on `[x0 i, xl i]` (`= [0,1]`);
+* each result evaluated at `u_d ↦ (u_d - start_d)/(end_d - start_d)` in BOTH directions is exactly the
+  map of `c.j` (every homogeneous component, every side, every parameter).
+One side condition remains, and only if the order of `o_j` is raised in direction 0: `GrevilleOK` of
+its (not yet normalised) basis of direction 1 — `raise_order` in direction 0 re-interpolates direction 1
+as well; in the second round the untouched direction 0 carries the union basis, for which `GrevilleOK`
+and `raiseGuard` are proved here.  `_partial`: the guards of this section; volumes are the same
+argument with three rounds and are not written out. -/
+theorem C12_open_surfaces_all_directions_partial (tol : K) (htol : 0 < tol) (p1 p2 : Fin 2 → ℕ)
+    (hp1 : ∀ i, 2 ≤ p1 i) (hp2 : ∀ i, 2 ≤ p2 i) (x0 xl : Fin 2 → K) (L : Fin 2 → List (K × ℕ × ℕ))
+    (hm : ∀ i, ∀ e ∈ L i, e.2.1 ≤ p1 i - 1 ∧ e.2.2 ≤ p2 i - 1)
+    (hgap : ∀ i, Separated (2 * ((max (p1 i) (p2 i) - 1 : ℕ) : K) * tol)
+      (clampedU (x0 i) (xl i) ((L i).map (·.1))))
+    (o1 o2 : Obj K) (h1 : o1.WF) (h2 : o2.WF) (hw1 : C06.WF o1 2) (hw2 : C06.WF o2 2)
+    (hb1 : ∀ i : Fin 2, C06.reparamOk (o1.basis i) 0 1
+      = openBasis (p1 i) (clampedU (x0 i) (xl i) ((L i).map (·.1))) (clampedM (p1 i) ((L i).map (·.2.1))))
+    (hb2 : ∀ i : Fin 2, C06.reparamOk (o2.basis i) 0 1
+      = openBasis (p2 i) (clampedU (x0 i) (xl i) ((L i).map (·.1))) (clampedM (p2 i) ((L i).map (·.2.2))))
+    (hG1 : p1 0 < max (p1 0) (p2 0) → GrevilleOK tol (o1.basis 1))
+    (hG2 : p2 0 < max (p1 0) (p2 0) → GrevilleOK tol (o2.basis 1)) :
+    ∃ r, makeIdentical tol false false o1 o2 none = .ok r
+      ∧ C06.WF r.1 2 ∧ C06.WF r.2 2
+      ∧ (∀ i : Fin 2,
+          r.1.basis i = openBasis (max (p1 i) (p2 i)) (clampedU (x0 i) (xl i) ((L i).map (·.1)))
+            (clampedM (max (p1 i) (p2 i)) ((L i).map (fun e =>
+              max (raisedMult (max (p1 i) (p2 i) - p1 i) e.2.1) (raisedMult (max (p1 i) (p2 i) - p2 i) e.2.2))))
+          ∧ r.2.basis i = r.1.basis i)
+      ∧ (r.1.rational = (makeCompatible o1 o2).1.rational ∧ r.2.rational = (makeCompatible o1 o2).2.rational
+          ∧ r.1.ncomp = (makeCompatible o1 o2).1.ncomp ∧ r.2.ncomp = (makeCompatible o1 o2).2.ncomp)
+      ∧ (∀ comp, comp < (makeCompatible o1 o2).1.ncomp → ∀ (s : Fin 2 → Side) (u : Fin 2 → K),
+          (C06.toTP r.1 2 comp).eval s
+              (fun d => (u d - (o1.basis d).start) / ((o1.basis d).stop - (o1.basis d).start))
+            = (C06.toTP (makeCompatible o1 o2).1 2 comp).eval s u)
+      ∧ (∀ comp, comp < (makeCompatible o1 o2).2.ncomp → ∀ (s : Fin 2 → Side) (u : Fin 2 → K),
+          (C06.toTP r.2 2 comp).eval s
+              (fun d => (u d - (o2.basis d).start) / ((o2.basis d).stop - (o2.basis d).start))
+            = (C06.toTP (makeCompatible o1 o2).2 2 comp).eval s u) := by
+  set c := makeCompatible o1 o2 with hcdef
+  obtain ⟨hwc1, hwc2⟩ := makeCompatible_wf06 hw1 hw2
+  obtain ⟨hcb1, hcb2⟩ := makeCompatible_bases o1 o2
+  obtain ⟨_, _, hd1, hd2, hrr1, hrr2⟩ := makeCompatible_spec h1 h2
+  have hbas1 : ∀ k, c.1.basis k = o1.basis k := fun k => by unfold Obj.basis; rw [hcb1]
+  have hbas2 : ∀ k, c.2.basis k = o2.basis k := fun k => by unfold Obj.basis; rw [hcb2]
+  have hnb1 : ∀ i : Fin 2, C06.reparamOk (c.1.basis i) 0 1
+      = openBasis (p1 i) (clampedU (x0 i) (xl i) ((L i).map (·.1))) (clampedM (p1 i) ((L i).map (·.2.1))) :=
+    fun i => by rw [hbas1]; exact hb1 i
+  have hnb2 : ∀ i : Fin 2, C06.reparamOk (c.2.basis i) 0 1
+      = openBasis (p2 i) (clampedU (x0 i) (xl i) ((L i).map (·.1))) (clampedM (p2 i) ((L i).map (·.2.2))) :=
+    fun i => by rw [hbas2]; exact hb2 i
+  have hcr : c.1.rational = c.2.rational := hrr1.trans hrr2.symm
+  have hcd : c.1.dimension = c.2.dimension := hd1.trans hd2.symm
+  have hfac : ∀ i : Fin 2, tol ≤ 2 * ((max (p1 i) (p2 i) - 1 : ℕ) : K) * tol := by
+    intro i
+    have h1 : (1 : K) ≤ ((max (p1 i) (p2 i) - 1 : ℕ) : K) := by
+      have : 1 ≤ max (p1 i) (p2 i) - 1 := by have := le_max_left (p1 i) (p2 i); have := hp1 i; omega
       exact_mod_cast this
     nlinarith
-  exact C12_open_direction_partial tol htol false false p1 p2 hp1 hp2 x0 xl L (separated_mono hfac hgap) i
-    (by have := i.isLt; omega) s a hw1 hw2 ha hb1 hb2
-    (fun h => raisesTo_volume tol htol i p1 (max p1 p2) hp1 (le_max_left _ _) x0 xl L (·.1) (·.2.1)
-      (fun e he => (hm e he).1) hgap a.1 hwa1 hb1 (hother₁ h) (hguard₁ h))
-    (fun h => raisesTo_volume tol htol i p2 (max p1 p2) hp2 (le_max_right _ _) x0 xl L (·.1) (·.2.2)
-      (fun e he => (hm e he).2) hgap a.2 hwa2 hb2 (hother₂ h) (hguard₂ h))
+  have hsep : ∀ i : Fin 2, Separated tol (clampedU (x0 i) (xl i) ((L i).map (·.1))) :=
+    fun i => separated_mono (hfac i) (hgap i)
+  have hsize : ∀ o : Obj K, C06.WF o 2 → o.bases.size = o.pardim := by
+    intro o hw
+    unfold Obj.pardim
+    rw [hw.size, hw.shape, C06.midx_length]
+  have hne01 : ∀ k : Fin 2, k ≠ 0 → k = 1 := by intro k hk; fin_cases k <;> simp_all
+  have hne10 : ∀ k : Fin 2, k ≠ 1 → k = 0 := by intro k hk; fin_cases k <;> simp_all
+  -- the guard for an object whose re-parametrised FIRST basis is clamped in common-entry form
+  have hguard_of : ∀ (o : Obj K) (i : Fin 2), C06.WF o 2 → ∀ (p : ℕ) (f : K × ℕ × ℕ → ℕ), 1 ≤ p →
+      (C06.reparamObj o i 0 1).basis 0
+        = openBasis p (clampedU (x0 0) (xl 0) ((L 0).map (·.1))) (clampedM p ((L 0).map f)) →
+      Obj.raiseGuard tol (C06.reparamObj o i 0 1).bases.toList = .ok true := by
+    intro o i hw p f hp hb
+    have hw' := (C06.wf_reparamObj hw i (zero_lt_one : (0 : K) < 1)).1
+    rw [bases_toList_two hw', hb]
+    exact raiseGuard_common tol htol p hp _ _ _ _ _ (hsep 0) _
+  -- ROUND 0
+  obtain ⟨r0, hrun0, hr0b, hr0e, hr0o, hres01, hres02, hwr01, hwr02⟩ :=
+    C12_open_surfaces_partial tol htol (p1 0) (p2 0) (hp1 0) (hp2 0) (x0 0) (xl 0) (L 0) (hm 0) (hgap 0) 0 c
+      hwc1 hwc2 (hnb1 0) (hnb2 0)
+      (fun h k hk => by rw [hne01 k hk, hbas1]; exact hG1 h)
+      (fun h k hk => by rw [hne01 k hk, hbas2]; exact hG2 h)
+      (fun _ => hguard_of c.1 0 hwc1 (p1 0) (·.2.1) (by have := hp1 0; omega)
+        ((reparamObj_basis hwc1 (0 : Fin 2)).trans (hnb1 0)))
+      (fun _ => hguard_of c.2 0 hwc2 (p2 0) (·.2.2) (by have := hp2 0; omega)
+        ((reparamObj_basis hwc2 (0 : Fin 2)).trans (hnb2 0)))
+  obtain ⟨ob01, ob02⟩ := identicalDir_other (s := c) (fun h => by cases h) (fun _ => hsize _ hwc1)
+    (fun h => by cases h) (fun _ => hsize _ hwc2) hrun0
+  have hr0r : r0.1.rational = r0.2.rational := by rw [ob01.rational, ob02.rational]; exact hcr
+  have hr0d : r0.1.dimension = r0.2.dimension := by
+    rw [dimension_eq_of hres01.ncomp ob01.rational, dimension_eq_of hres02.ncomp ob02.rational]; exact hcd
+  -- ROUND 1
+  have hB0le : ∀ e ∈ L 0, max (raisedMult (max (p1 0) (p2 0) - p1 0) e.2.1)
+      (raisedMult (max (p1 0) (p2 0) - p2 0) e.2.2) ≤ max (p1 0) (p2 0) - 1 := by
+    intro e he
+    have := hm 0 e he
+    have h1 := le_max_left (p1 0) (p2 0)
+    have h2 := le_max_right (p1 0) (p2 0)
+    have := hp1 0
+    have := hp2 0
+    unfold raisedMult
+    refine max_le ?_ ?_ <;> split_ifs <;> omega
+  have hp0 : 2 ≤ max (p1 0) (p2 0) := le_trans (hp1 0) (le_max_left _ _)
+  have hG0 : GrevilleOK tol (r0.1.basis ((0 : Fin 2) : ℕ)) := by
+    rw [hr0b]
+    exact grevilleOK_common tol htol _ hp0 _ _ _ _ _ hB0le (hgap 0)
+  have hr01 : ∀ j : Fin 2, j ≠ 0 → r0.1.basis j = c.1.basis j ∧ r0.2.basis j = c.2.basis j := hr0o
+  obtain ⟨r1, hrun1, hr1b, hr1e, hr1o, hres11, hres12, hwr11, hwr12⟩ :=
+    C12_open_surfaces_partial tol htol (p1 1) (p2 1) (hp1 1) (hp2 1) (x0 1) (xl 1) (L 1) (hm 1) (hgap 1) 1 r0
+      hwr01 hwr02
+      ((congrArg (fun b => C06.reparamOk b 0 1) (hr01 1 (by decide)).1).trans (hnb1 1))
+      ((congrArg (fun b => C06.reparamOk b 0 1) (hr01 1 (by decide)).2).trans (hnb2 1))
+      (fun _ k hk => by rw [hne10 k hk]; exact hG0)
+      (fun _ k hk => by rw [hne10 k hk]; exact hr0e ▸ hG0)
+      (fun _ => hguard_of r0.1 1 hwr01 (max (p1 0) (p2 0)) _ (by omega)
+        ((reparamObj_basis_ne r0.1 1 0 (by decide)).trans hr0b))
+      (fun _ => hguard_of r0.2 1 hwr02 (max (p1 0) (p2 0)) _ (by omega)
+        ((reparamObj_basis_ne r0.2 1 0 (by decide)).trans (hr0e.trans hr0b)))
+  obtain ⟨ob11, ob12⟩ := identicalDir_other (s := r0) (fun h => by cases h) (fun _ => hsize _ hwr01)
+    (fun h => by cases h) (fun _ => hsize _ hwr02) hrun1
+  -- the loop
+  have hloop : makeIdentical tol false false o1 o2 none = .ok r1 := by
+    show identicalLoop tol false false (List.range c.1.pardimB) c = .ok r1
+    have hpb : c.1.pardimB = 2 := by unfold Obj.pardimB; exact hwc1.size
+    rw [hpb]
+    show identicalLoop tol false false [0, 1] c = .ok r1
+    unfold identicalLoop
+    have e0 := makeIdenticalDir_eq tol false false hwc1 hcr hcd (0 : Fin 2) (by decide)
+    have e0' : makeIdenticalDir tol false false c (.int ((0 : ℕ) : Int)) = .ok r0 := e0.trans hrun0
+    simp only [e0']
+    unfold identicalLoop
+    have e1 := makeIdenticalDir_eq tol false false hwr01 hr0r hr0d (1 : Fin 2) (by decide)
+    have e1' : makeIdenticalDir tol false false r0 (.int ((1 : ℕ) : Int)) = .ok r1 := e1.trans hrun1
+    simp only [e1']
+    rfl
+  refine ⟨r1, hloop, hwr11, hwr12, ?_, ⟨?_, ?_, ?_, ?_⟩, ?_, ?_⟩
+  · intro i
+    fin_cases i
+    · exact ⟨((hr1o 0 (by decide)).1).trans hr0b, ((hr1o 0 (by decide)).2).trans (hr0e.trans ((hr1o 0 (by decide)).1).symm)⟩
+    · exact ⟨hr1b, hr1e⟩
+  · rw [ob11.rational, ob01.rational]
+  · rw [ob12.rational, ob02.rational]
+  · rw [hres11.ncomp, hres01.ncomp]
+  · rw [hres12.ncomp, hres02.ncomp]
+  · intro comp hc s u
+    refine Eq.trans ?_ (hres01.eval comp hc s u)
+    refine Eq.trans ?_ (hres11.eval comp (by rw [hres01.ncomp]; exact hc) s _)
+    congr 1
+    funext d
+    have e1 : r0.1.basis 1 = o1.basis 1 := ((hr01 1 (by decide)).1).trans (hbas1 1)
+    fin_cases d
+    · simp [Function.update, hbas1]
+    · simp [Function.update, e1]
+  · intro comp hc s u
+    refine Eq.trans ?_ (hres02.eval comp hc s u)
+    refine Eq.trans ?_ (hres12.eval comp (by rw [hres02.ncomp]; exact hc) s _)
+    congr 1
+    funext d
+    have e1 : r0.2.basis 1 = o2.basis 1 := ((hr01 1 (by decide)).2).trans (hbas2 1)
+    fin_cases d
+    · simp [Function.update, hbas2]
+    · simp [Function.update, e1]
+
+/-! ## A periodic direction against an open partner -/
 
 /-- **A direction that is periodic in one object and open in the other — `lower_periodic` without
 hypothesis** (any pardim `m`, direction `i`; object 1 open, object 2 periodic of continuity `k ≥ 0` in
-direction `i`; the other directions arbitrary).  `s` is the pair after `make_splines_compatible`, `a`
-the pair after `reparam`.  Object 2 satisfies the guard of periodic knot insertion, `n ≥ p + k`
-functions, and has its declared seam multiplicity (`hseam`) — below the guard the pinned code is wrong
-(known finding).  Knot-vector hypotheses: the basis of object 1 and the basis `lower_periodic(-1)`
-gives object 2 (order `p₂`, non-periodic) are in common-entry form over `L` (`hb1`, `hb2`; these are
-statements about knot vectors only, decidable for concrete data).
-Conclusion: `make_splines_identical(direction=i)` succeeds: `lower_periodic` opens object 2 at the
-seam, `raise_order` brings both to order `max p₁ p₂`, the insertion passes give both the union knot
-vector; in direction `i` both objects end with the same non-periodic basis, the other directions'
-bases are unchanged; object 1 is an exact rescaling of its input for ALL parameters and object 2 for
-all parameters of its domain `[start_i, end_i]` (`RescaledOn`; a periodic object evaluated outside is
-wrapped into the domain first, property C08).
+direction `i`; the other directions arbitrary).  Object 2 satisfies the guard of periodic knot
+insertion, `n ≥ p + k` functions, and has its declared seam multiplicity (`hseam`) — below the guard the
+pinned code is wrong (known finding).  Knot-vector hypotheses: the normalised basis of object 1 and the
+basis `lower_periodic(-1)` gives the re-parametrised object 2 (order `p₂`, non-periodic) are in
+common-entry form over `L` (`hb1`, `hb2`: statements about knot vectors only, decidable for concrete
+data).  Conclusion: `make_splines_identical(direction=i)` succeeds: `lower_periodic` opens object 2 at
+the seam, `raise_order` brings both to order `max p₁ p₂`, the insertion passes give both the union knot
+vector; in direction `i` both objects end with the same non-periodic basis, the other directions' bases
+are unchanged, both results are well formed; object 1 is an exact rescaling of its input for ALL
+parameters and object 2 for all parameters of its domain `[start_i, end_i]` (`RescaledOn`; a periodic
+object evaluated outside is wrapped into the domain first, property C08).
 Proved without hypotheses: `reparam` (C06), `lower_periodic` (C08 lifted by
 `C12.lowerPeriodic_sameMapOn`), the insertions (C04 lifted by `C12.insertKnots_sameMap`).
 
-`_partial`: (i) when the orders differ, `RaisesTo` for the object of lower order (`H_raise₁/₂`; theorems
-for curves / surfaces / volumes: `C12.raisesTo_curve`, `raisesTo_surface`, `raisesTo_volume` —
-`C12_periodic_curves_partial` below has none left); (ii) only the case "lowered to non-periodic": two
-periodic partners of different continuity end periodic, and the insertion passes are then periodic
-insertions (`C04_periodic_partial`, not lifted); (iii) the guard `n ≥ p + k`. -/
+`_partial`: the guards of the previous section; (i) when the orders differ, `RaisesTo` for the object of
+lower order (`H_raise₁/₂`; theorems for curves / surfaces / volumes: `C12.raisesTo_curve`,
+`raisesTo_surface`, `raisesTo_volume` — `C12_periodic_curves_partial` below has none left); (ii) only
+the case "lowered to non-periodic": two periodic partners of different continuity end periodic, and the
+insertion passes are then periodic insertions (`C04_periodic_partial`, not lifted); (iii) the guard
+`n ≥ p + k` and `hseam`. -/
 theorem C12_periodic_direction_partial {m : ℕ} (tol : K) (htol : 0 < tol) (c1 c2 : Bool) (p1 p2 : ℕ)
     (hp1 : 2 ≤ p1) (hp2 : 2 ≤ p2) (x0 xl : K) (L : List (K × ℕ × ℕ))
     (hsep : Separated tol (clampedU x0 xl (L.map (·.1)))) (i : Fin m) (hi : (i : ℕ) ≤ 2)
-    (s a : Obj K × Obj K) (hw1 : C06.WF s.1 m) (hw2 : C06.WF s.2 m) (ha : stageReparam s i = .ok a)
-    (hb1 : a.1.basis i = openBasis p1 (clampedU x0 xl (L.map (·.1))) (clampedM p1 (L.map (·.2.1))))
-    (k : ℕ) (hk : (a.2.basis i).periodic = (k : Int))
-    (hguard : (a.2.basis i).order + k ≤ (a.2.basis i).numFunctions)
-    (hseam : (a.2.basis i).start < (a.2.basis i).kn (a.2.basis i).order)
-    (hb2 : ∀ o2, a.2.lowerPeriodic (-1) i = .ok o2 →
+    (s : Obj K × Obj K) (hw1 : C06.WF s.1 m) (hw2 : C06.WF s.2 m)
+    (hb1 : C06.reparamOk (s.1.basis i) 0 1
+      = openBasis p1 (clampedU x0 xl (L.map (·.1))) (clampedM p1 (L.map (·.2.1))))
+    (k : ℕ) (hk : (s.2.basis i).periodic = (k : Int))
+    (hguard : (s.2.basis i).order + k ≤ (s.2.basis i).numFunctions)
+    (hseam : (s.2.basis i).start < (s.2.basis i).kn (s.2.basis i).order)
+    (hb2 : ∀ o2, (C06.reparamObj s.2 i 0 1).lowerPeriodic (-1) i = .ok o2 →
       o2.basis i = openBasis p2 (clampedU x0 xl (L.map (·.1))) (clampedM p2 (L.map (·.2.2))))
-    (H_raise₁ : p1 < max p1 p2 → RaisesTo tol c1 m i p1 (max p1 p2) x0 xl L (·.1) (·.2.1) a.1)
-    (H_raise₂ : p2 < max p1 p2 → ∀ o2, a.2.lowerPeriodic (-1) i = .ok o2 →
+    (H_raise₁ : p1 < max p1 p2 →
+      RaisesTo tol c1 m i p1 (max p1 p2) x0 xl L (·.1) (·.2.1) (C06.reparamObj s.1 i 0 1))
+    (H_raise₂ : p2 < max p1 p2 → ∀ o2, (C06.reparamObj s.2 i 0 1).lowerPeriodic (-1) i = .ok o2 →
       RaisesTo tol c2 m i p2 (max p1 p2) x0 xl L (·.1) (·.2.2) o2) :
     ∃ r, identicalDir tol c1 c2 s i = .ok r
       ∧ r.1.basis i = openBasis (max p1 p2) (clampedU x0 xl (L.map (·.1)))
@@ -540,35 +699,46 @@ theorem C12_periodic_direction_partial {m : ℕ} (tol : K) (htol : 0 < tol) (c1 
       ∧ r.2.basis i = r.1.basis i
       ∧ (∀ j : Fin m, j ≠ i → r.1.basis j = s.1.basis j ∧ r.2.basis j = s.2.basis j)
       ∧ Rescaled m i (s.1.basis i).start (s.1.basis i).stop s.1 r.1
-      ∧ RescaledOn m i (s.2.basis i).start (s.2.basis i).stop s.2 r.2 := by
-  obtain ⟨_, _, ha1, ha2⟩ := stageReparam_ok ha
-  have hre1 := reparam_rescaled hw1 i ha1
-  have hre2 := reparam_rescaled hw2 i ha2
-  obtain ⟨b, c, r, hSP, _, _, hSO, hSM, hr1, hr2, hs1, hs2, hkr⟩ :=
-    periodic_vs_open_direction tol htol c1 c2 p1 p2 hp1 hp2 x0 xl L hsep i hi a hre1.2.1 hre2.2.1 hb1 k hk
-      hguard hseam hb2 H_raise₁ H_raise₂
-  have hod1 := reparamDir_onlyDir ha1
-  have hod2 := reparamDir_onlyDir ha2
-  refine ⟨r, identicalDir_of_stages ha hSP hSO hSM, hr1, hr2, fun j hj => ?_, hre1.1.trans_same hs1,
-    hre2.1.trans_on (hw2.valid i).start_lt_stop ⟨hre2.2.2.1, hre2.2.2.2⟩ hs2⟩
-  have hne : (j : ℕ) ≠ (i : ℕ) := fun e => hj (Fin.ext e)
-  exact ⟨((hkr j hj).1).trans (hod1.basis_ne j hne), ((hkr j hj).2).trans (hod2.basis_ne j hne)⟩
+      ∧ RescaledOn m i (s.2.basis i).start (s.2.basis i).stop s.2 r.2
+      ∧ C06.WF r.1 m ∧ C06.WF r.2 m := by
+  have hv := hw2.valid i
+  have hbb : (C06.reparamObj s.2 i 0 1).basis i = C06.reparamOk (s.2.basis i) 0 1 := reparamObj_basis hw2 i
+  have hseam' : (C06.reparamOk (s.2.basis i) 0 1).start
+      < (C06.reparamOk (s.2.basis i) 0 1).kn (C06.reparamOk (s.2.basis i) 0 1).order := by
+    rw [C06.reparamOk_start hv, C06.reparamOk_order, C06.reparamOk_kn _ (C06.valid_size_pos hv)]
+    have hpos : 0 < (s.2.basis i).stop - (s.2.basis i).start := sub_pos.mpr hv.start_lt_stop
+    have : 0 < ((s.2.basis i).kn (s.2.basis i).order - (s.2.basis i).start) * (1 - 0)
+        / ((s.2.basis i).stop - (s.2.basis i).start) := by
+      apply div_pos _ hpos
+      have := sub_pos.mpr hseam
+      linarith
+    linarith
+  exact core_periodic_direction tol htol c1 c2 p1 p2 hp1 hp2 x0 xl L hsep i hi s _ hw1 hw2
+    (stageReparam_succeeds hw1 hw2 i hi) ((reparamObj_basis hw1 i).trans hb1) k
+    (by show ((C06.reparamObj s.2 i 0 1).basis i).periodic = _; rw [hbb]; exact hk)
+    (by show ((C06.reparamObj s.2 i 0 1).basis i).order + k ≤ ((C06.reparamObj s.2 i 0 1).basis i).numFunctions
+        rw [hbb, C06.reparamOk_numFunctions]; exact hguard)
+    (by show ((C06.reparamObj s.2 i 0 1).basis i).start
+          < ((C06.reparamObj s.2 i 0 1).basis i).kn ((C06.reparamObj s.2 i 0 1).basis i).order
+        rw [hbb]; exact hseam')
+    hb2 H_raise₁ H_raise₂
 
 /-- **A periodic curve against an open curve, any orders — no hypothesis on the geometry of any called
 method.**  `C12_periodic_direction_partial` for `m = 1` with `RaisesTo` discharged by C05
 (`C12.raisesTo_curve`: continuity `m_j ≤ p_j - 1`, distinct values more than `2·(p-1)·tol` apart).
-What remains are the guard `n ≥ p + k` with the declared seam multiplicity and the two knot-vector
-statements `hb1`, `hb2`. -/
+`_partial`: what remains are the guards of the previous section, the guard `n ≥ p + k` with the declared
+seam multiplicity, and the knot-vector statement `hb2` about the opened basis. -/
 theorem C12_periodic_curves_partial (tol : K) (htol : 0 < tol) (c1 c2 : Bool) (p1 p2 : ℕ)
     (hp1 : 2 ≤ p1) (hp2 : 2 ≤ p2) (x0 xl : K) (L : List (K × ℕ × ℕ))
     (hm : ∀ e ∈ L, e.2.1 ≤ p1 - 1 ∧ e.2.2 ≤ p2 - 1)
     (hgap : Separated (2 * ((max p1 p2 - 1 : ℕ) : K) * tol) (clampedU x0 xl (L.map (·.1))))
-    (s a : Obj K × Obj K) (hw1 : C06.WF s.1 1) (hw2 : C06.WF s.2 1) (ha : stageReparam s 0 = .ok a)
-    (hb1 : a.1.basis 0 = openBasis p1 (clampedU x0 xl (L.map (·.1))) (clampedM p1 (L.map (·.2.1))))
-    (k : ℕ) (hk : (a.2.basis 0).periodic = (k : Int))
-    (hguard : (a.2.basis 0).order + k ≤ (a.2.basis 0).numFunctions)
-    (hseam : (a.2.basis 0).start < (a.2.basis 0).kn (a.2.basis 0).order)
-    (hb2 : ∀ o2, a.2.lowerPeriodic (-1) 0 = .ok o2 →
+    (s : Obj K × Obj K) (hw1 : C06.WF s.1 1) (hw2 : C06.WF s.2 1)
+    (hb1 : C06.reparamOk (s.1.basis 0) 0 1
+      = openBasis p1 (clampedU x0 xl (L.map (·.1))) (clampedM p1 (L.map (·.2.1))))
+    (k : ℕ) (hk : (s.2.basis 0).periodic = (k : Int))
+    (hguard : (s.2.basis 0).order + k ≤ (s.2.basis 0).numFunctions)
+    (hseam : (s.2.basis 0).start < (s.2.basis 0).kn (s.2.basis 0).order)
+    (hb2 : ∀ o2, (C06.reparamObj s.2 0 0 1).lowerPeriodic (-1) 0 = .ok o2 →
       o2.basis 0 = openBasis p2 (clampedU x0 xl (L.map (·.1))) (clampedM p2 (L.map (·.2.2)))) :
     ∃ r, identicalDir tol c1 c2 s 0 = .ok r
       ∧ r.1.basis 0 = openBasis (max p1 p2) (clampedU x0 xl (L.map (·.1)))
@@ -577,20 +747,35 @@ theorem C12_periodic_curves_partial (tol : K) (htol : 0 < tol) (c1 c2 : Bool) (p
       ∧ r.2.basis 0 = r.1.basis 0
       ∧ Rescaled 1 0 (s.1.basis 0).start (s.1.basis 0).stop s.1 r.1
       ∧ RescaledOn 1 0 (s.2.basis 0).start (s.2.basis 0).stop s.2 r.2 := by
-  obtain ⟨_, _, ha1, ha2⟩ := stageReparam_ok ha
-  have hwa1 := (reparam_rescaled hw1 0 ha1).2.1
-  have hwa2 := (reparam_rescaled hw2 0 ha2).2.1
   have hfac : tol ≤ 2 * ((max p1 p2 - 1 : ℕ) : K) * tol := by
     have h1 : (1 : K) ≤ ((max p1 p2 - 1 : ℕ) : K) := by
       have : 1 ≤ max p1 p2 - 1 := by have := le_max_left p1 p2; omega
       exact_mod_cast this
     nlinarith
-  obtain ⟨r, h1, h2, h3, _, h5, h6⟩ := C12_periodic_direction_partial (m := 1) tol htol c1 c2 p1 p2 hp1 hp2
-    x0 xl L (separated_mono hfac hgap) 0 (by decide) s a hw1 hw2 ha hb1 k hk hguard hseam hb2
+  have hwa1 := (C06.wf_reparamObj hw1 (0 : Fin 1) (zero_lt_one : (0 : K) < 1)).1
+  have hwa2 := (C06.wf_reparamObj hw2 (0 : Fin 1) (zero_lt_one : (0 : K) < 1)).1
+  have hbb : (C06.reparamObj s.2 0 0 1).basis 0 = C06.reparamOk (s.2.basis 0) 0 1 := reparamObj_basis hw2 (0 : Fin 1)
+  obtain ⟨r, h1, h2, h3, _, h5, h6, _, _⟩ := C12_periodic_direction_partial (m := 1) tol htol c1 c2 p1 p2 hp1 hp2
+    x0 xl L (separated_mono hfac hgap) 0 (by decide) s hw1 hw2 hb1 k hk hguard hseam hb2
     (fun _ => raisesTo_curve tol htol p1 (max p1 p2) hp1 (le_max_left _ _) x0 xl L (·.1) (·.2.1)
-      (fun e he => (hm e he).1) hgap a.1 hwa1 hb1 c1)
+      (fun e he => (hm e he).1) hgap _ hwa1 ((reparamObj_basis hw1 (0 : Fin 1)).trans hb1) c1)
     (fun _ o2 hl => by
-      obtain ⟨o2', hl', hwo2, _⟩ := lowerPeriodic_sameMapOn hwa2 0 k hk hguard hseam (-1) (le_refl _) (by omega)
+      have hv : (s.2.basis 0).Valid := hw2.valid (0 : Fin 1)
+      obtain ⟨o2', hl', hwo2, _⟩ := lowerPeriodic_sameMapOn hwa2 (0 : Fin 1) k
+        (by show ((C06.reparamObj s.2 0 0 1).basis 0).periodic = _; rw [hbb]; exact hk)
+        (by show ((C06.reparamObj s.2 0 0 1).basis 0).order + k ≤ ((C06.reparamObj s.2 0 0 1).basis 0).numFunctions
+            rw [hbb, C06.reparamOk_numFunctions]; exact hguard)
+        (by show ((C06.reparamObj s.2 0 0 1).basis 0).start
+              < ((C06.reparamObj s.2 0 0 1).basis 0).kn ((C06.reparamObj s.2 0 0 1).basis 0).order
+            rw [hbb, C06.reparamOk_start hv, C06.reparamOk_order, C06.reparamOk_kn _ (C06.valid_size_pos hv)]
+            have hpos : 0 < (s.2.basis 0).stop - (s.2.basis 0).start := sub_pos.mpr hv.start_lt_stop
+            have : 0 < ((s.2.basis 0).kn (s.2.basis 0).order - (s.2.basis 0).start) * (1 - 0)
+                / ((s.2.basis 0).stop - (s.2.basis 0).start) := by
+              apply div_pos _ hpos
+              have := sub_pos.mpr hseam
+              linarith
+            linarith)
+        (-1) (le_refl _) (by omega)
       have : o2' = o2 := by rw [hl'] at hl; injection hl
       subst this
       exact raisesTo_curve tol htol p2 (max p1 p2) hp2 (le_max_right _ _) x0 xl L (·.1) (·.2.2)
@@ -740,23 +925,23 @@ example :
       = some ([3, 3], [true, true], [[7, 4], [7, 4]]) := by
   decide +kernel
 
-/-- `C12_open_curves_partial` applies to `(exQ, exL)`: the call succeeds, both curves get the union
-    knot vector `0,0,0,1/3,1/2,2/3,2/3,1,1,1`, and both are exact rescalings of their inputs. -/
+/-- `C12_open_curves_same_order_partial` applies to `(exQ, exL)`: the call succeeds, both curves get the
+    union knot vector `0,0,0,1/3,1/2,2/3,2/3,1,1,1`, and both are exact rescalings of their inputs. -/
 example : ∃ r, identicalDir exTol true true (exQ, exL) 0 = .ok r
     ∧ (r.1.basis 0).knots = #[0, 0, 0, 1/3, 1/2, 2/3, 2/3, 1, 1, 1] ∧ r.2.basis 0 = r.1.basis 0
     ∧ Rescaled 1 0 (exQ.basis 0).start (exQ.basis 0).stop exQ r.1
     ∧ Rescaled 1 0 (exL.basis 0).start (exL.basis 0).stop exL r.2 := by
-  obtain ⟨ha, hb1, hb2⟩ := exQL_reparam
+  obtain ⟨hb1, hb2, _⟩ := exQL_norm
   have hsep : Separated exTol (clampedU (0 : ℚ) 1 ([((1 : ℚ)/3, 1, 0), (1/2, 0, 1), (2/3, 2, 0)].map (·.1))) := by
     simp [Separated, clampedU, exTol]; norm_num
-  obtain ⟨r, h1, h2, h3, h4, h5⟩ := C12_open_curves_partial exTol (by norm_num [exTol]) true true 3 (by norm_num)
-    0 1 [((1 : ℚ)/3, 1, 0), (1/2, 0, 1), (2/3, 2, 0)] hsep (exQ, exL) (exQa, exLa) exQ_wf exL_wf ha hb1 hb2
+  obtain ⟨r, h1, h2, h3, h4, h5⟩ := C12_open_curves_same_order_partial exTol (by norm_num [exTol]) true true 3
+    (by norm_num) 0 1 [((1 : ℚ)/3, 1, 0), (1/2, 0, 1), (2/3, 2, 0)] hsep (exQ, exL) exQ_wf exL_wf hb1 hb2
   refine ⟨r, h1, ?_, h3, h4, h5⟩
   rw [h2]
   decide +kernel
 
-/-- `C12_open_curves` on the harness's worked example with DIFFERENT orders: the quadratic `exQ` on
-    `[0,3]` (knots `1`, `2,2`) and the rational linear curve `exL2` on `[1,3]` (knot `2`).  The call
+/-- `C12_open_curves_partial` on the harness's worked example with DIFFERENT orders: the quadratic `exQ`
+    on `[0,3]` (knots `1`, `2,2`) and the rational linear curve `exL2` on `[1,3]` (knot `2`).  The call
     succeeds, both get order 3 and the knot vector `0,0,0,1/3,1/2,1/2,2/3,2/3,1,1,1` (what the real code
     returns, `harness/props/C12.py`), and both are exact rescalings of their inputs. -/
 example : ∃ r, identicalDir exTol true true (exQ, exL2) 0 = .ok r
@@ -764,50 +949,51 @@ example : ∃ r, identicalDir exTol true true (exQ, exL2) 0 = .ok r
     ∧ r.2.basis 0 = r.1.basis 0
     ∧ Rescaled 1 0 (exQ.basis 0).start (exQ.basis 0).stop exQ r.1
     ∧ Rescaled 1 0 (exL2.basis 0).start (exL2.basis 0).stop exL2 r.2 := by
-  obtain ⟨ha, hb1, hb2⟩ := exQL2_reparam
+  obtain ⟨hb1, _, hb2⟩ := exQL_norm
   have hgap : Separated (2 * ((max 3 2 - 1 : ℕ) : ℚ) * exTol)
       (clampedU (0 : ℚ) 1 ([((1 : ℚ)/3, 1, 0), (1/2, 0, 1), (2/3, 2, 0)].map (·.1))) := by
     simp [Separated, clampedU, exTol]; norm_num
-  obtain ⟨r, h1, h2, h3, h4, h5⟩ := C12_open_curves exTol (by norm_num [exTol]) true true 3 2 (by norm_num)
+  obtain ⟨r, h1, h2, h3, h4, h5⟩ := C12_open_curves_partial exTol (by norm_num [exTol]) true true 3 2 (by norm_num)
     (by norm_num) 0 1 [((1 : ℚ)/3, 1, 0), (1/2, 0, 1), (2/3, 2, 0)]
     (by intro e he; simp only [List.mem_cons, List.not_mem_nil, or_false] at he
         rcases he with rfl | rfl | rfl <;> decide)
-    hgap (exQ, exL2) (exQa, exL2a) exQ_wf exL2_wf ha hb1 hb2
+    hgap (exQ, exL2) exQ_wf exL2_wf hb1 hb2
   refine ⟨r, h1, ?_, ?_, h3, h4, h5⟩
   · rw [h2]; rfl
   · rw [h2]; decide +kernel
 
 /-- `C12_open_direction_partial` on two SURFACES, direction `u` (equal orders there, so no `RaisesTo`
     hypothesis is needed; the `v` directions have different orders and are left alone): the call
-    succeeds, both get the `u` knot vector `0,0,1/2,1,1`, the `v` bases are untouched and both surfaces
-    are exact rescalings of their inputs. -/
+    succeeds, both get the `u` knot vector `0,0,1/2,1,1`, the `v` bases are untouched, both surfaces are
+    exact rescalings of their inputs and the results are well formed. -/
 example : ∃ r, identicalDir exTol false false (exSA, exSB) 0 = .ok r
     ∧ (r.1.basis 0).knots = #[0, 0, 1/2, 1, 1] ∧ r.2.basis 0 = r.1.basis 0
     ∧ r.1.basis 1 = exSu1 ∧ r.2.basis 1 = exSv1
     ∧ Rescaled 2 0 (exSA.basis 0).start (exSA.basis 0).stop exSA r.1
-    ∧ Rescaled 2 0 (exSB.basis 0).start (exSB.basis 0).stop exSB r.2 := by
-  obtain ⟨ha, hb1, hb2⟩ := exS_reparam
+    ∧ Rescaled 2 0 (exSB.basis 0).start (exSB.basis 0).stop exSB r.2
+    ∧ C06.WF r.1 2 ∧ C06.WF r.2 2 := by
+  obtain ⟨hb1, hb2, _⟩ := exS_norm
   have hsep : Separated exTol (clampedU (0 : ℚ) 1 ([((1 : ℚ)/2, 1, 0)].map (·.1))) := by
     simp [Separated, clampedU, exTol]; norm_num
-  obtain ⟨r, h1, h2, h3, h4, h5, h6⟩ := C12_open_direction_partial (m := 2) exTol (by norm_num [exTol]) false false
-    2 2 (by norm_num) (by norm_num) 0 1 [((1 : ℚ)/2, 1, 0)] hsep 0 (by decide) (exSA, exSB) (exSAa, exSBa)
-    exSA_wf exSB_wf ha hb1 hb2 (fun h => absurd h (by decide)) (fun h => absurd h (by decide))
-  refine ⟨r, h1, ?_, h3, (h4 1 (by decide)).1, (h4 1 (by decide)).2, h5, h6⟩
+  obtain ⟨r, h1, h2, h3, h4, h5, h6, h7, h8⟩ := C12_open_direction_partial (m := 2) exTol (by norm_num [exTol])
+    false false 2 2 (by norm_num) (by norm_num) 0 1 [((1 : ℚ)/2, 1, 0)] hsep 0 (by decide) (exSA, exSB)
+    exSA_wf exSB_wf hb1 hb2 (fun h => absurd h (by decide)) (fun h => absurd h (by decide))
+  refine ⟨r, h1, ?_, h3, (h4 1 (by decide)).1, (h4 1 (by decide)).2, h5, h6, h7, h8⟩
   have h2' : r.1.basis 0 = openBasis (max 2 2) (clampedU (0 : ℚ) 1 ([((1 : ℚ)/2, 1, 0)].map (·.1)))
       (clampedM (max 2 2) ([((1 : ℚ)/2, 1, 0)].map (fun e =>
         max (raisedMult (max 2 2 - 2) e.2.1) (raisedMult (max 2 2 - 2) e.2.2)))) := h2
   rw [h2']; decide +kernel
 
-/-- `C12_open_surfaces` on the same two surfaces in direction `v`, where the orders DIFFER (2 against
-    3): surface A is elevated (its untouched `u` basis `0,0,1,2,2` is `GrevilleOK`, the guard holds since
-    `u` is clamped), both end with order 3 on `0,0,0,1,1,1`, the `u` bases are untouched, both are exact
-    rescalings. -/
+/-- `C12_open_surfaces_partial` on the same two surfaces in direction `v`, where the orders DIFFER (2
+    against 3): surface A is elevated (its untouched `u` basis `0,0,1,2,2` is `GrevilleOK`, the guard holds
+    since `u` is clamped), both end with order 3 on `0,0,0,1,1,1`, the `u` bases are untouched, both are
+    exact rescalings. -/
 example : ∃ r, identicalDir exTol false false (exSA, exSB) 1 = .ok r
     ∧ (r.1.basis 1).order = 3 ∧ (r.1.basis 1).knots = #[0, 0, 0, 1, 1, 1] ∧ r.2.basis 1 = r.1.basis 1
     ∧ r.1.basis 0 = exSu0 ∧ r.2.basis 0 = exSv0
     ∧ Rescaled 2 1 (exSA.basis 1).start (exSA.basis 1).stop exSA r.1
     ∧ Rescaled 2 1 (exSB.basis 1).start (exSB.basis 1).stop exSB r.2 := by
-  obtain ⟨ha, hb1, hb2, hu, hl⟩ := exS_reparam_v
+  obtain ⟨_, _, hb1, hb2, hu, hl⟩ := exS_norm
   have htol : (0 : ℚ) < exTol := by norm_num [exTol]
   have hgap : Separated (2 * ((max 2 3 - 1 : ℕ) : ℚ) * exTol) (clampedU (0 : ℚ) 1 (([] : List (ℚ × ℕ × ℕ)).map (·.1))) := by
     simp [Separated, clampedU, exTol]; norm_num
@@ -815,12 +1001,12 @@ example : ∃ r, identicalDir exTol false false (exSA, exSB) 1 = .ok r
     rw [hu]
     exact grevilleOK_clamped exTol htol 1 (by norm_num) 0 2 [1] [1] rfl (by simp)
       (by simp [Separated, clampedU, exTol]; norm_num)
-  have hguard : Obj.raiseGuard exTol exSA.bases.toList = .ok true := by
+  have hguard : Obj.raiseGuard exTol (C06.reparamObj exSA 1 0 1).bases.toList = .ok true := by
     rw [hl]
     exact raiseGuard_clamped exTol htol 2 (by norm_num) 0 2 [1] [1] rfl
       (by simp [Separated, clampedU, exTol]; norm_num) (by simp) _
-  obtain ⟨r, h1, h2, h3, h4, h5, h6⟩ := C12_open_surfaces exTol htol 2 3 (by norm_num) (by norm_num) 0 1 []
-    (by simp) hgap 1 (exSA, exSB) (exSA, exSB) exSA_wf exSB_wf ha hb1 hb2
+  obtain ⟨r, h1, h2, h3, h4, h5, h6, _, _⟩ := C12_open_surfaces_partial exTol htol 2 3 (by norm_num) (by norm_num)
+    0 1 [] (by simp) hgap 1 (exSA, exSB) exSA_wf exSB_wf hb1 hb2
     (fun _ k hk => by
       have : k = 0 := by
         rcases k with ⟨_ | _ | n, hn⟩
@@ -836,6 +1022,33 @@ example : ∃ r, identicalDir exTol false false (exSA, exSB) 1 = .ok r
   · rw [h2']; rfl
   · rw [h2']; decide +kernel
 
+/-- `C12_open_surfaces_all_directions_partial` on the two example surfaces: `make_splines_identical`
+    with `direction=None` succeeds, both results are well formed and carry the same basis in BOTH
+    directions (`u`: `0,0,1/2,1,1`; `v`: order 3 on `0,0,0,1,1,1`), and each is the exact rescaling of its
+    (compatible) input in both directions at once.  In direction `u` the orders agree, so the `GrevilleOK`
+    side condition is not needed. -/
+example : ∃ r, makeIdentical exTol false false exSA exSB none = .ok r
+    ∧ C06.WF r.1 2 ∧ C06.WF r.2 2 ∧ r.2.basis 0 = r.1.basis 0 ∧ r.2.basis 1 = r.1.basis 1
+    ∧ (∀ comp, comp < (makeCompatible exSA exSB).1.ncomp → ∀ (s : Fin 2 → Side) (u : Fin 2 → ℚ),
+        (C06.toTP r.1 2 comp).eval s
+            (fun d => (u d - (exSA.basis d).start) / ((exSA.basis d).stop - (exSA.basis d).start))
+          = (C06.toTP (makeCompatible exSA exSB).1 2 comp).eval s u) := by
+  obtain ⟨a0, b0, a1, b1, _, _⟩ := exS_norm
+  obtain ⟨r, h1, h2, h3, h4, _, h6, _⟩ := C12_open_surfaces_all_directions_partial exTol (by norm_num [exTol])
+    ![2, 2] ![2, 3] (by intro i; fin_cases i <;> simp) (by intro i; fin_cases i <;> simp) ![0, 0] ![1, 1]
+    ![[((1 : ℚ)/2, 1, 0)], []]
+    (by intro i e he; fin_cases i <;> simp at he ⊢; subst he; simp)
+    (by intro i; fin_cases i <;> (simp [Separated, clampedU, exTol]; try norm_num))
+    exSA exSB exP_WF'.1 exP_WF'.2 exSA_wf exSB_wf
+    (by intro i; fin_cases i
+        · simpa using a0
+        · simpa using a1)
+    (by intro i; fin_cases i
+        · simpa using b0
+        · simpa using b1)
+    (fun h => absurd h (by simp)) (fun h => absurd h (by simp))
+  exact ⟨r, h1, h2, h3, (h4 0).2, (h4 1).2, h6⟩
+
 /-- `C12_periodic_curves_partial` on an open segment and a `C^0`-periodic polyline (`n = 2 = p + k`
     functions): `lower_periodic` opens the polyline at the seam, both end on `0,0,1/2,1,1`, the segment
     is an exact rescaling for all parameters and the polyline on its domain `[0,2]`. -/
@@ -843,20 +1056,19 @@ example : ∃ r, identicalDir exTol true true (exSeg, exPer) 0 = .ok r
     ∧ (r.1.basis 0).knots = #[0, 0, 1/2, 1, 1] ∧ r.2.basis 0 = r.1.basis 0
     ∧ Rescaled 1 0 (exSeg.basis 0).start (exSeg.basis 0).stop exSeg r.1
     ∧ RescaledOn 1 0 (exPer.basis 0).start (exPer.basis 0).stop exPer r.2 := by
-  obtain ⟨ha, hb1, hlow, hk, hguard, hseam⟩ := exPer_stages
+  obtain ⟨hb1, hlow, hk, hguard, hseam⟩ := exPer_norm
   have htol : (0 : ℚ) < exTol := by norm_num [exTol]
   have hgap : Separated (2 * ((max 2 2 - 1 : ℕ) : ℚ) * exTol)
       (clampedU (0 : ℚ) 1 ([((1 : ℚ)/2, 0, 1)].map (·.1))) := by
     simp [Separated, clampedU, exTol]; norm_num
-  have hb2 : ∀ o2, exPera.lowerPeriodic (-1) 0 = .ok o2 →
+  have hb2 : ∀ o2, (C06.reparamObj exPer 0 0 1).lowerPeriodic (-1) 0 = .ok o2 →
       o2.basis 0 = openBasis 2 (clampedU (0 : ℚ) 1 ([((1 : ℚ)/2, 0, 1)].map (·.1)))
         (clampedM 2 ([((1 : ℚ)/2, 0, 1)].map (·.2.2))) := by
     intro o2 h
     rw [h] at hlow
     simpa using hlow
   obtain ⟨r, h1, h2, h3, h4, h5⟩ := C12_periodic_curves_partial exTol htol true true 2 2 (by norm_num) (by norm_num)
-    0 1 [((1 : ℚ)/2, 0, 1)] (by simp) hgap (exSeg, exPer) (exSeg, exPera) exSeg_wf exPer_wf ha hb1 0 hk hguard
-    hseam hb2
+    0 1 [((1 : ℚ)/2, 0, 1)] (by simp) hgap (exSeg, exPer) exSeg_wf exPer_wf hb1 0 hk hguard hseam hb2
   refine ⟨r, h1, ?_, h3, h4, h5⟩
   rw [h2]; decide +kernel
 
